@@ -47,6 +47,10 @@ pub fn deserialize(index: u64) -> Result<A5Cell, String> {
     // Technically not a resolution, but can be useful to think of as an
     // abstract cell that contains the whole world
     if resolution == -1 {
+        // Any other bit pattern without a resolution marker is not a cell
+        if index != WORLD_CELL {
+            return Err(format!("Invalid cell id: {:#018x}", index));
+        }
         return Ok(A5Cell {
             origin_id: 0,
             segment: 0,
@@ -77,27 +81,29 @@ pub fn deserialize(index: u64) -> Result<A5Cell, String> {
         (origin_id as OriginId, segment)
     };
 
-    if resolution < FIRST_HILBERT_RESOLUTION {
-        return Ok(A5Cell {
-            origin_id,
-            segment,
-            s: 0,
-            resolution,
-        });
-    }
+    let s = if resolution < FIRST_HILBERT_RESOLUTION {
+        0
+    } else {
+        // Mask away origin & segment and shift away resolution and 00 bits
+        let hilbert_levels = resolution - FIRST_HILBERT_RESOLUTION + 1;
+        let hilbert_bits = 2 * hilbert_levels as u32;
+        let shift = HILBERT_START_BIT - hilbert_bits;
+        (index & REMOVAL_MASK) >> shift
+    };
 
-    // Mask away origin & segment and shift away resolution and 00 bits
-    let hilbert_levels = resolution - FIRST_HILBERT_RESOLUTION + 1;
-    let hilbert_bits = 2 * hilbert_levels as u32;
-    let shift = HILBERT_START_BIT - hilbert_bits;
-    let s = (index & REMOVAL_MASK) >> shift;
-
-    Ok(A5Cell {
+    let cell = A5Cell {
         origin_id,
         segment,
         s,
         resolution,
-    })
+    };
+
+    // Bit patterns with stray bits (e.g. below the resolution marker) are not cells
+    if serialize(&cell)? != index {
+        return Err(format!("Invalid cell id: {:#018x}", index));
+    }
+
+    Ok(cell)
 }
 
 pub fn serialize(cell: &A5Cell) -> Result<u64, String> {
